@@ -877,10 +877,25 @@ func c12Oracle(cs *c12Case, obs *c12Obs) (bad []c12Verdict, attempts int, swallo
 			delete(open, op.N)
 		}
 	}
-	if failing >= 0 && failing < len(ops) && c12ErrCode(obs.Err) == "noFileReads" && regularOperands == 0 &&
-		(ops[failing].K == "main" || ops[failing].K == "first" || ops[failing].K == "gl") {
+	// the NoFileReads error while reading the main input, and no operand names a file: standard input was refused.
+	// (When no record arrives the first-record marker never fires; once END has started the failing operation is one of END's.)
+	failAt := failing
+	for _, e := range obs.Events {
+		if e.T && e.I == -3 {
+			failAt = -1
+			for i := len(ops) - len(cs.End); i < len(ops); i++ {
+				if !per[i].Done {
+					failAt = i
+					break
+				}
+			}
+			break
+		}
+	}
+	if failAt >= 0 && failAt < len(ops) && c12ErrCode(obs.Err) == "noFileReads" && regularOperands == 0 &&
+		(ops[failAt].K == "main" || ops[failAt].K == "first" || ops[failAt].K == "gl") {
 		bad = append(bad, c12Verdict{What: fmt.Sprintf("operation %d (%s) ended the run with the NoFileReads error although no operand names a file: "+
-			"standard input (operand \"-\" or the default input) is not a file and must stay available", failing, ops[failing].K),
+			"standard input (operand \"-\" or the default input) is not a file and must stay available", failAt, ops[failAt].K),
 			Got: obs.Err + " operands=" + fmt.Sprintf("%q", cs.effArgsIf(ruleRan)), Want: "no NoFileReads error"})
 	}
 	if cs.NoReads && obs.Err == "" && regularOperands > 0 && hasMain {
@@ -1274,6 +1289,21 @@ func c12Corpus() []c12Case {
 			{Begin: []c12Op{{K: "gl"}}, RulePlace: "action", ArgvRule: []c12Edit{{K: "append", N: "in0"}}},
 			// no record at all: the rule, and its ARGV edit, never happen
 			{Args: []string{"-"}, Begin: []c12Op{{K: "gf", N: "-"}, {K: "gf", N: "-"}, {K: "gf", N: "-"}}, RulePlace: "func", ArgvRule: []c12Edit{{K: "append", N: "in2"}}},
+		} {
+			cs := w
+			cs.Hook, cs.ShellOK = mask%2 == 0, true
+			c12Flags(&cs, mask)
+			res = append(res, cs)
+		}
+	}
+	// no record arrives (getline < "-" in BEGIN drained standard input), so the first-record marker never fires, and END is refused a
+	// file: the NoFileReads error belongs to END's getline < file, not to the main loop (minimized past false alarm of the stdin clause)
+	for mask := 4; mask < 8; mask++ {
+		for _, w := range []c12Case{
+			{Begin: []c12Op{{K: "gf", N: "-", Form: 4}}, RulePlace: "action", RuleEnd: "exit2", Rule: []c12Op{{K: "gt", N: "o1", Form: 5}},
+				End: []c12Op{{K: "gf", N: "o0"}}},
+			{Begin: []c12Op{{K: "gf", N: "-", Form: 2}}, RulePlace: "pattern", RuleEnd: "nextfile", ArgvRule: []c12Edit{{K: "append", N: "in2"}},
+				End: []c12Op{{K: "close", N: "-"}, {K: "gf", N: "in1", Form: 4}}},
 		} {
 			cs := w
 			cs.Hook, cs.ShellOK = mask%2 == 0, true
